@@ -992,3 +992,87 @@ func (b Bounds) GenOriginShape(shape string, emit func(*Case)) {
 		}
 	}
 }
+
+// NameAlphabet: registry names with upper-case letters and separators, per ecosystem; the first
+// entries are real packages (npm JSONStream, Maven com.zaxxer:HikariCP).
+var NameAlphabet = map[string][]string{
+	NPM:   {"JSONStream", "Base64-js", "@Types/Node_x"},
+	Maven: {"com.zaxxer:HikariCP", "org.Apache.Commons:commons-IO", "io.x:Pkg_Name.v2"},
+}
+
+// GenNameShape enumerates universes whose packages carry the names of NameAlphabet instead of d1/t1, with the
+// upgrade configuration built through BOTH construction routes of upgrade.Config (Set/SetDefault and
+// NewConfigFromStrings), keyed by the exact registry name (used by C11):
+//
+//	cfgs(p)      CfgSets(p) + (major,p:patch) (major,p:minor)
+//	name-solo    manifest {N: R}; N publishes S; vulns {[0,f) f in ladder, [0,nofix)} on N
+//	             N in NameAlphabet x route x S in Subsets(first 4 ladder versions, 2) x R in {a, ^a | a, [a,)} for a in S x vulns x cfgs(N)
+//	name-chain   manifest {N1: 1.0.0}; N1@1.0.0 -> N2@a; N2 publishes T; vulns on N2   (N1, N2 = consecutive alphabet names)
+//	             (N1,N2) x route x T in Subsets(first 4 ladder versions, 2) x a in T x vulns x cfgs(N2)
+//	name-update  (Maven Update) manifest {N: a}; N publishes S
+//	             N x route x S in Subsets(first 4 ladder versions, 2) x a in first 4 ladder versions x cfgs(N)
+func (b Bounds) GenNameShape(eco, shape string, emit func(*Case)) {
+	l := b.Ladder
+	names := NameAlphabet[eco]
+	subs := Subsets(l[:4], 2)
+	cfgsFor := func(p string) [][]string {
+		return append(b.CfgSets([]string{p}), []string{"major", p + ":patch"}, []string{"major", p + ":minor"})
+	}
+	vulns := func(pkg string) [][]Vuln {
+		var out [][]Vuln
+		for _, f := range l {
+			out = append(out, []Vuln{{ID: "V1", Pkg: pkg, Introduced: "0", Fixed: f}})
+		}
+		return append(out, []Vuln{{ID: "V1", Pkg: pkg, Introduced: "0"}})
+	}
+	for ni, name := range names {
+		for _, route := range []string{"", "strings"} {
+			switch shape {
+			case "name-solo":
+				for _, s := range subs {
+					var reqs []string
+					for _, a := range s {
+						if eco == NPM {
+							reqs = append(reqs, a, "^"+a)
+						} else {
+							reqs = append(reqs, a, "["+a+",)")
+						}
+					}
+					for _, r := range reqs {
+						for _, vs := range vulns("d1") {
+							for _, cfg := range cfgsFor("d1") {
+								emit(&Case{Eco: eco, Shape: shape, Names: map[string]string{"d1": name}, CfgRoute: route,
+									Pkgs: []Pkg{{Name: "d1", Vers: plainVers(s)}}, Manifest: []Req{{Name: "d1", Req: r}}, Vulns: vs, Cfg: cfg})
+							}
+						}
+					}
+				}
+			case "name-chain":
+				n2 := names[(ni+1)%len(names)]
+				for _, t := range subs {
+					for _, a := range t {
+						for _, vs := range vulns("t1") {
+							for _, cfg := range cfgsFor("t1") {
+								emit(&Case{Eco: eco, Shape: shape, Names: map[string]string{"d1": name, "t1": n2}, CfgRoute: route,
+									Pkgs: []Pkg{{Name: "d1", Vers: []Ver{{V: "1.0.0", Deps: []Dep{{Name: "t1", Req: a}}}}}, {Name: "t1", Vers: plainVers(t)}},
+									Manifest: []Req{{Name: "d1", Req: "1.0.0"}}, Vulns: vs, Cfg: cfg})
+							}
+						}
+					}
+				}
+			case "name-update":
+				if eco != Maven {
+					return
+				}
+				for _, s := range subs {
+					for _, a := range l[:4] {
+						for _, cfg := range cfgsFor("d1") {
+							emit(&Case{Eco: Maven, Shape: shape, Names: map[string]string{"d1": name}, CfgRoute: route,
+								Pkgs: []Pkg{{Name: "d1", Vers: plainVers(s)}}, Manifest: []Req{{Name: "d1", Req: a}}, Cfg: cfg})
+						}
+					}
+				}
+			}
+		}
+	}
+}
